@@ -4,10 +4,10 @@ import cxx_specs as XS
 
 PROPERTY = "C15"
 LEVEL = "proof"
-EXPLANATION = ""
-TRUSTED = []
+EXPLANATION = ("Proof over all failure points: with the k-th allocation request inside randomx_alloc_cache / randomx_alloc_dataset failing (for every k and every flag combination, by exception or by NULL), the call returns NULL with nothing live and no exception escaping, success leaves exactly the expected objects live, and release returns all of them; deallocCache releases each resource a (possibly partially constructed) cache holds exactly once. create_vm's failure paths and the allocators' own bookkeeping are not decided.")
+TRUSTED = ['exception-flow model of the extraction: a may-throw stub sets rxv_exc and control leaves the try block after the statement containing the call (exact here because every assigned object is still null at that point)', 'allocation stubs with a ghost ledger stand for operator new, the JIT compiler constructor and the aligned / large-page allocators', 'deallocCache / deallocDataset stubs in the alloc harness carry the contract enforced on the real deallocCache (deallocDataset: by inspection, one line)']
 ASSUMPTIONS = []
-NOT_DECIDED = []
+NOT_DECIDED = ['randomx_create_vm failure paths and ~VmBase / ~CompiledVm', "allocator internals (allocMemoryPages, allocLargePagesMemory, freePagedMemory) and JitCompilerX86's constructor / destructor", 'process-level growth (heap blocks, mapped bytes) over repeated cycles']
 INC = ["@suites/common"]
 ALLOC = [{"cxx": XS.RX_ALLOC, "out": "rx.c", "header": True}, "harness_alloc.c"]
 
